@@ -13,6 +13,7 @@ import (
 	"strconv"
 	"strings"
 
+	"github.com/EliCDavis/polyform/math/curves"
 	"github.com/EliCDavis/polyform/math/geometry"
 	"github.com/EliCDavis/polyform/math/quaternion"
 	"github.com/EliCDavis/polyform/math/trs"
@@ -23,6 +24,7 @@ import (
 	"github.com/EliCDavis/polyform/modeling/primitives"
 	"github.com/EliCDavis/polyform/modeling/repeat"
 	"github.com/EliCDavis/polyform/modeling/triangulation"
+	"github.com/EliCDavis/polyform/nodes"
 	"github.com/EliCDavis/vector/vector2"
 	"github.com/EliCDavis/vector/vector3"
 )
@@ -106,6 +108,28 @@ func (c *Ctx) primitiveSweep(maxP int) {
 			lps[j] = extrude.LinePoint{Point: p, Up: vector3.Up[float64](), Width: float64(c.Rng.Intn(3)), Height: 1, Uv: vector2.New(0., float64(j)), UvWidth: 1}
 		}
 		c.gen("extrude_line", strconv.Itoa(n), func() modeling.Mesh { return extrude.Line(lps) })
+	}
+	// extrude.ScrewNodeData.Process: line lengths 0..5 x segments 0..5 (fewer than 2 of either: empty mesh)
+	for ll := 0; ll <= 5; ll++ {
+		for sg := 0; sg <= 5; sg++ {
+			ll, sg := ll, sg
+			line := make([]vector3.Float64, ll)
+			for j := range line {
+				line[j] = vector3.New(1+float64(j), float64(j)*0.5, 0)
+			}
+			c.gen("screw", fmt.Sprintf("%d %d", ll, sg), func() modeling.Mesh {
+				nd := extrude.ScrewNodeData{Line: nodes.Value(line).Out(), Segments: nodes.Value(sg).Out(),
+					Revolutions: nodes.Value(1.5).Out(), Distance: nodes.Value(2.).Out()}
+				if c.Rng.Intn(2) == 0 {
+					nd.UVs = nodes.Value(primitives.StripUVs{Start: vector2.New(0., 0.5), End: vector2.New(1., 0.5), Width: 1}).Out()
+				}
+				m, err := nd.Process()
+				if err != nil {
+					panic(err)
+				}
+				return m
+			})
+		}
 	}
 	// extrude.polygon (Polygon / Circle.Extrude): the winding of each quad is a float decision, so the index list
 	// is checked by an oracle line against the generator with the flags read off the output
@@ -256,6 +280,51 @@ func (c *Ctx) otherGenerators(k int) {
 			ts[j] = trs.New(c.smallV3(), quaternion.FromTheta(float64(j), vector3.Up[float64]()), vector3.One[float64]())
 		}
 		try("repeat.Mesh", func() modeling.Mesh { return repeat.Mesh(base, ts) })
+
+		// CircleAlongSpline.Extrude (polygon along a Catmull-Rom spline)
+		if len(p) >= 4 {
+			spl := curves.CatmullRomSplineParameters{Points: p, Alpha: 0.5}.Spline()
+			res := 2 + c.Rng.Intn(6)
+			polyIdxN := func(tag string, pl int, f func() modeling.Mesh) {
+				var m modeling.Mesh
+				if guardMesh(func() string { m = f(); return "" }) == "" {
+					c.Emit("c02.holds.polygon_idx", fmt.Sprintf("%d %d 0 %s", pl, sides, guardMesh(func() string { return genAnswer(m) })), "true")
+				}
+				try(tag, f)
+			}
+			polyIdxN("extrude.CircleAlongSpline", res, func() modeling.Mesh {
+				return extrude.CircleAlongSpline{CircleResolution: sides, Radius: 0.5, Spline: &spl, SplineResolution: res}.Extrude()
+			})
+		}
+
+		// constrained triangulation: a constraint polygon that cuts through the point cloud, so triangles with one or
+		// two corners inside are clipped and intersection points are appended
+		{
+			ncp := 6 + c.Rng.Intn(14)
+			cp := make([]vector2.Float64, ncp)
+			for j := range cp {
+				cp[j] = vector2.New(c.Rng.Float64()*10, c.Rng.Float64()*10)
+			}
+			cx, cy, rad := 3+c.Rng.Float64()*4, 3+c.Rng.Float64()*4, 1.5+c.Rng.Float64()*2.5
+			k := 3 + c.Rng.Intn(4)
+			shape := make([]vector2.Float64, k)
+			for j := range shape {
+				a := 2 * math.Pi * float64(j) / float64(k)
+				shape[j] = vector2.New(cx+rad*math.Cos(a), cy+rad*math.Sin(a))
+			}
+			var before int
+			try("triangulation.ConstrainedBowyerWatson", func() modeling.Mesh {
+				before = len(cp)
+				m := triangulation.ConstrainedBowyerWatson(cp, []triangulation.Constraint{triangulation.NewConstraint(shape)})
+				if m.AttributeLength() > before {
+					c.Note("constrained-bw:points-added")
+				}
+				if m.Indices().Len() > 0 {
+					c.Note("constrained-bw:non-empty")
+				}
+				return m
+			})
+		}
 
 		// triangulation
 		np := 3 + c.Rng.Intn(10)
